@@ -166,7 +166,15 @@ func NewReader(filename string) (*Reader, error) {
 		if string(r.header.Magic[:]) != fileMagic {
 			return fmt.Errorf("wrong magic: %q, expected %q", string(r.header.Magic[:]), fileMagic)
 		}
+		fileInfo, err := file.Stat()
+		if err != nil {
+			return err
+		}
 		for _, s := range r.header.Sections {
+			// a partly written header must not be trusted
+			if s.Begin > s.End || s.End > uint64(fileInfo.Size()) {
+				return fmt.Errorf("corrupt index file: section [%d, %d) does not fit into the file size %d", s.Begin, s.End, fileInfo.Size())
+			}
 			if uint64(r.size) < s.End {
 				r.size = int64(s.End)
 			}
